@@ -80,8 +80,9 @@ class SqlFluffLineageAnalyzer(LineageAnalyzer):
     def _list_specific_statement_segment(self, sql: str):
         try:
             parsed = Linter(config=self._sqlfluff_config).parse_string(sql)
-        except RuntimeError as e:
-            # the parser itself gives up, e.g. a grammar referring to a keyword the dialect does not have
+        except (RuntimeError, ArithmeticError) as e:
+            # the parser itself gives up, e.g. a grammar referring to a keyword the dialect does not have; or the templater fails
+            # while evaluating an expression inside a template tag, e.g. {{ 1/0 }}
             raise InvalidSyntaxException(
                 f"This SQL statement is unparsable, please check potential syntax error for SQL:\n"
                 f"{sql}\n"
